@@ -13,6 +13,11 @@ class C09Expanding(Scenario):
         cfg = structs.ExpandingSubject.gen_cfg(rng)
         cfg.update({"steps": rng.between(4, self.max_steps), "pushes": rng.chance(1, 2), "restarts": rng.chance(2, 3),
                     "universe": rng.choice((6, 12, 30, 60))})
+        if rng.chance(1, 40):
+            # large capacities: the growth rule must not depend on est_elements being small (int identity holds up to
+            # 256; percentages rounded to one decimal reach 100.0 early from 2000 on)
+            cfg.update({"est": rng.choice((256, 257, 300, 1000, 2000, 2500, 5000)), "rate": rng.choice((0.05, 0.2)),
+                        "big": True, "steps": rng.between(3, 8), "pushes": False})
         return cfg
 
     def gen_step(self, rng):
@@ -21,6 +26,9 @@ class C09Expanding(Scenario):
             return None
         self.n_gen += 1
         r = rng.below(100)
+        if cfg.get("big") and r < 60:
+            est = cfg["est"]
+            return {"op": "fill", "n": rng.choice((est - 1, est, est + 1, 1, 2, est // 2))}
         if r < 80:
             return {"op": "add", "k": rng.below(cfg["universe"]), "force": rng.chance(1, 8)}
         if r < 88 and cfg["pushes"]:
@@ -90,6 +98,27 @@ class C09Expanding(Scenario):
                 if counts != before_counts or arrays != before_arrays:
                     raise Violation("duplicate_inserted", f"add of a key already reported present changed the filters: "
                                                           f"{before_counts} -> {counts}", sig)
+        elif op == "fill":
+            # n forced (hence effective) insertions of fresh keys in one go; the per-filter counts afterwards show
+            # exactly where each growth happened
+            want = list(before_counts)
+            for i in range(step["n"]):
+                o.add(f"fill-{self.calls}", force=True)
+                self.calls += 1
+                self.effective += 1
+                if want[-1] >= est:
+                    want.append(0)
+                want[-1] += 1
+            counts, arrays, foot = self.stream(sig)
+            if len(want) > len(before_counts):
+                ctx.fault("growth", len(want) - len(before_counts))
+                ctx.nontrivial = True
+            ctx.fault("bulk_fill")
+            if counts != want:
+                kind = "no_growth_when_full" if len(counts) < len(want) else "early_growth" if len(counts) > len(want) \
+                    else "insertion_misplaced"
+                raise Violation(kind, f"{step['n']} effective insertions, est_elements {est}: per-filter counts "
+                                      f"{before_counts} -> {counts}, expected {want}", sig)
         elif op == "push":
             o.push()
             self.pushed = True
@@ -125,6 +154,13 @@ class C09Expanding(Scenario):
             s = dict(step)
             s["force"] = False
             yield s
+        if step["op"] == "fill" and step["n"] > 1:
+            s = dict(step)
+            s["n"] = step["n"] // 2
+            yield s
+            s = dict(step)
+            s["n"] = step["n"] - 1
+            yield s
         if step["op"] == "restart" and step["chan"] != "bytes":
             s = dict(step)
             s["chan"] = "bytes"
@@ -135,7 +171,7 @@ SPEC = PropSpec(
     prop="C09",
     scenarios=[(1, C09Expanding)],
     runs={"quick": 30000, "thorough": 700000},
-    rule=("one run = an ExpandingBloomFilter with est_elements 1..8, a drawn rate and hash strategy, <=60 steps of add "
+    rule=("one run = an ExpandingBloomFilter with est_elements 1..8 (1 run in 40: 256..5000 with bulk fills), a drawn rate and hash strategy, <=60 steps of add "
           "(new / duplicate / forced, classified by a check just before), push, and export+load over bytes / path / file "
           "object; per-filter insertion counts are read from the exported stream by layout after every step.  "
           "non-trivial = at least one growth or restart fired; distinct = event-log digests"),
